@@ -263,6 +263,12 @@ func (g glSpec) build() *astisub.Subtitles {
 func genGLRaw(t *rapid.T) glSpec {
 	g := genGL(t, false)
 	// definitions that cues refer to without their being in the maps (e.g. after a caller removed them)
+	if len(g.Styles) > 1 && rapid.IntRange(0, 5).Draw(t, "alldetached") == 0 {
+		// every style the cues use is missing from the map (items brought over from another list)
+		for i := range g.Styles {
+			g.Styles[i].Detached = true
+		}
+	}
 	if len(g.Styles) > 0 && rapid.IntRange(0, 5).Draw(t, "detachedstyle") == 0 {
 		g.Styles[rapid.IntRange(0, len(g.Styles)-1).Draw(t, "detachedstyleid")].Detached = true
 	}
